@@ -459,6 +459,7 @@ def build_pair_query(db, prog, name, pairing=None, extra_cuts=None, propid='C01'
     setup_entry = []
     setup_cut = []
     checks = []
+    relinfo = {}
     unrelated = []
     G = []
     # function-local statics of the C++ side with constant initialisers (static const double pi = M_PI ...): at a cut point
@@ -503,7 +504,7 @@ def build_pair_query(db, prog, name, pairing=None, extra_cuts=None, propid='C01'
                 G.append('static %s old_%s%s;' % (ca, a[1], ''.join(', old_%s' % n_ for n_, t_ in al)))
                 both = both[:-1] + ' old_%s = v; %s}' % (a[1], ''.join('old_%s = v; ' % n_ for n_, t_ in al))
                 for n_ in [a[1]] + [n_ for n_, t_ in al]:
-                    checks.append((key + '/' + n_, '(x_%s == old_%s || (double)x_%s == (double)r_%s)' % (n_, n_, n_, b[1])))
+                    checks.append((key + '/' + n_, '(bx_same((double)x_%s, (double)old_%s) || bx_same((double)x_%s, (double)r_%s))' % (n_, n_, n_, b[1])))
                 if a[0] == 'param' or b[0] == 'param':
                     setup_entry.append(both)
                 setup_cut.append(both)
@@ -515,6 +516,7 @@ def build_pair_query(db, prog, name, pairing=None, extra_cuts=None, propid='C01'
                 # by-value parameters of a loop-free pair are not observable after the call (the reference's fermi clamps
                 # its own copy of E)
                 continue
+            relinfo[key] = (ca, cb, a[1], b[1])
             if ca == 'double' and cb == 'double':
                 checks.append((key, 'bx_same(x_%s, r_%s)' % (a[1], b[1])))
             else:
@@ -655,9 +657,23 @@ def build_pair_query(db, prog, name, pairing=None, extra_cuts=None, propid='C01'
         # everything of one cut point stays inside its case: pc is a constant there, so array indices stay concrete
         H.append('  case %d: {' % k)
         H += ['  ' + s for s in (setup_entry if k == 0 else setup_cut)]
+        for inv_ in hooks.get('cut_invariants', {}).get(cname, []):
+            desc_, cond_ = inv_[0], inv_[1]
+            if len(inv_) > 2:
+                # established by assignment (bit-identical copies, also for NaN payloads) instead of by assumption
+                H.append('    %s   /* invariant of this cut point: %s */' % (inv_[2], desc_))
+            H.append('    __CPROVER_assume(%s);   /* invariant of this cut point: %s */' % (cond_, desc_))
+        # variables declared dead at this cut point (each side overwrites them before reading them): havocked independently
+        # on the two sides and not compared on arrival here.  Self-validating: were one of them live, the independent
+        # values would make a later comparison fail, never pass.
+        for key in hooks.get('dead_at', {}).get(cname, []):
+            ca_, cb_, xa_, rb_ = relinfo[key]
+            H.append('    x_%s = nondet_%s(); r_%s = nondet_%s();   /* dead here */' % (xa_, ca_, rb_, cb_))
         if lvpre:
             H.append('    ' + lvpre)
         H.append('    nx = cxx_seg(%d); exc_x = bx_exc; bx_exc = 0; nr = ref_seg(%d);' % (k, k))
+        if hooks.get('assume_no_exc'):
+            H.append('    __CPROVER_assume(!exc_x);   /* ASSUMPTION: %s */' % hooks['assume_no_exc'])
         tag = '%s %s seg@%s' % (propid, name, cname)
         for d in dead:
             H.append('    __CPROVER_assert(nx != %d, "%s: the wrong-level exit is unreachable for a tabulated level");' % (idsx[d], tag))
@@ -677,7 +693,15 @@ def build_pair_query(db, prog, name, pairing=None, extra_cuts=None, propid='C01'
             H.append('    if (%d < tr_x_n && %d < tr_r_n) { __CPROVER_assert(tr_x_id[%d] == tr_r_id[%d], "%s: same callee at call #%d"); '
                      '__CPROVER_assert(%s, "%s: same arguments at call #%d"); }' % (c_, c_, c_, c_, tag, c_ + 1, cmpa, tag, c_ + 1))
         for key, cmp_ in checks:
+            dl_ = [segments.BX_EXIT if cl_ == '@exit' else idsx[cl_] for cl_, ks_ in hooks.get('dead_at', {}).items() if key in ks_ and (cl_ in idsx or cl_ == '@exit')]
+            if dl_:
+                cmp_ = '%s || %s' % (' || '.join('nx == %d' % d_ for d_ in dl_), cmp_)
             H.append('    __CPROVER_assert(%s, "%s: related variable %s equal afterwards");' % (cmp_, tag, key))
+        for cl_, invs_ in hooks.get('cut_invariants', {}).items():
+            if cl_ in idsx:
+                for inv_ in invs_:
+                    desc_, cond_ = inv_[0], inv_[1]
+                    H.append('    __CPROVER_assert(nx != %d || (%s), "%s: invariant of %s on arrival: %s");' % (idsx[cl_], cond_, tag, cl_, desc_))
         H.append('    break; }')
     H.append('  }')
     H.append('  __CPROVER_assert(0, "canary %s: harness end is reachable (must be refuted)");' % name)
@@ -685,7 +709,7 @@ def build_pair_query(db, prog, name, pairing=None, extra_cuts=None, propid='C01'
     parts.append('\n'.join(H))
     meta = {'function': name, 'reference': rname, 'what': 'rel', 'cuts': cuts, 'labels_cxx_only': [l for l in lx if l not in set(lr)],
             'labels_ref_only': [l for l in lr if l not in set(lx)], 'unrelated': unrelated,
-            'related': [k for k, _ in checks], 'chunk': ([only[0], only[-1]] if only is not None else None), 'truncated_at': TRUNCATE.get(name), 'skipped_dead_cuts': dead, 'literal_clusters': sum(1 for t, r in rep.items() if repr(float(t)) != r)}
+            'related': [k for k, _ in checks], 'chunk': ([only[0], only[-1]] if only is not None else None), 'truncated_at': TRUNCATE.get(name), 'assumed_no_exc': hooks.get('assume_no_exc'), 'dead_at': hooks.get('dead_at'), 'cut_invariants': {k_: [i_[0] for i_ in v_] for k_, v_ in hooks.get('cut_invariants', {}).items()}, 'skipped_dead_cuts': dead, 'literal_clusters': sum(1 for t, r in rep.items() if repr(float(t)) != r)}
     return {'c': '\n\n'.join(parts) + '\n', 'entry': 'harness', 'meta': meta}
 
 
